@@ -450,7 +450,7 @@ pub fn run(ctx: &Ctx) -> ! {
             }
         }
     }
-    let spec = RunSpec { shards: 16, cases_per_shard: ctx.tier.pick(60, 1500), cfg_len: CFG_LEN, min_ops: 6, max_ops: ctx.tier.pick(60, 120), max_shrink_iters: 60 };
+    let spec = RunSpec { shards: 16, cases_per_shard: ctx.tier.pick(60, 400), cfg_len: CFG_LEN, min_ops: 6, max_ops: ctx.tier.pick(60, 120), max_shrink_iters: 60 };
     match run_sharded(&ev, &spec, 5, &run) {
         Ok(()) => finish_ok(&ev),
         Err(v) => {
